@@ -383,8 +383,9 @@ def exec (ts : List String) (impl : List String) : Option String :=
   | _prop :: rest =>
     let script := parseScript rest
     let obs := parseTrace impl
-    if script.any (fun c => match c with | .inject .. => true | _ => false) then
-      -- scripted responder: the client model (scheduler + cache + resolution)
+    if script.any (fun c => match c with | .inject .. => true | _ => false) || !schedOnly script then
+      -- scripted responder (or commands beyond the scheduler fragment, e.g. metrics / verify):
+      -- the client model (scheduler + cache + resolution)
       match SimClient.clientCorrespondence script (iterations obs) with
       | some none => some (joinToks impl)
       | some (some diff) => some diff
